@@ -204,6 +204,11 @@ def rebuild_bar(r, modify_last=None):
                 continue
             if modify_last == "rest":
                 content = None if content is not None else [("F", 4)]
+            elif modify_last == "value":
+                # same place, same content, another duration (a shorter one always fits)
+                if not b.place_notes(_container(content), e[1] * 2):
+                    raise engine.HarnessError("rebuild: a shorter last entry does not fit the real bar")
+                continue
             elif modify_last == "note":
                 content = [("F#", 6)] if content is None else content[:-1] + [(content[-1][0], content[-1][1] + 1)]
         if not b.place_notes(_container(content), e[1]):
@@ -248,6 +253,7 @@ def check_track_equality(track, ref, S, where=""):
         variants.append(("last entry missing", rebuild_track(ref, drop_last=True, base=same)))
         variants.append(("last entry rest<->note", rebuild_track(ref, swap_last="rest", base=same)))
         variants.append(("last entry other pitch", rebuild_track(ref, swap_last="note", base=same)))
+        variants.append(("last entry other value", rebuild_track(ref, swap_last="value", base=same)))
     for name, other in variants:
         try:
             r1, r2 = (track == other), (other == track)
@@ -483,7 +489,7 @@ def gate_notes(instr):
     return out
 
 
-GATE_FORMS = ["text", "note", "list_text", "list_notes", "nc", "pair_with_E4", "seven"]
+GATE_FORMS = ["text", "note", "list_text", "list_notes", "nc", "pair_with_E4", "seven", "middle_of_three"]
 
 
 def gate_argument(form, note):
@@ -504,6 +510,12 @@ def gate_argument(form, note):
         if R.pitch(note) == R.pitch(("E", 4)):
             exp = [("E", 4)]
         return [Note("E", 4), Note(n, o)], exp
+    if form == "middle_of_three":
+        # a plain list in the caller's order: the probe note is neither the first nor the last item
+        r = R.RefSet([("E", 4)])
+        r.add(n, o)
+        r.add("G", 4)
+        return [Note("E", 4), Note(n, o), Note("G", 4)], list(r.notes)
     if form == "seven":
         # seven distinct in-range pitches around E-4/E-5 plus the probe note
         base = [("E", 4), ("G", 4), ("B", 4), ("D", 5), ("F", 5), ("A", 5)]
@@ -693,7 +705,7 @@ def gen_chords(shard):
 # ---------------------------------------------------------------------------------------
 from mc.ref import pitch as P
 
-SPELL_FORMS = ["text", "note", "nc", "pair_with_E4"]
+SPELL_FORMS = ["text", "note", "nc", "pair_with_E4", "middle_of_three"]
 
 
 def run_spelling(case):
